@@ -33,9 +33,14 @@ RealV(w, s) == Val("real", w, s, <<>>)
 Ref(p) == Val("reference", "", <<>>, <<p>>)
 Inst(hh, h, hn, n, c, kb) == Path("inst", hh, h, hn, n, c, kb)
 
+(* host kinds: none, DNS name, dotted name + port, IPv6 literal without    *)
+(* letters + port, IPv6 literal with hex letters of both cases + port,     *)
+(* userinfo                                                                *)
 Hosts == {<<>>, <<"a">>, <<"A", "dot", "b", "col", "N5">>,
           <<"lb", "col", "col", "N1", "rb", "col", "N5">>,
+          <<"lb", "H", "N1", "col", "col", "h", "rb", "col", "N5">>,
           <<"a", "col", "b", "at", "A">>}
+Ip6NoPort == <<"lb", "h", "H", "col", "col", "H", "rb">>
 Nss == {<<>>, <<"a">>, <<"A", "sl", "b">>, <<"a", "sl", "B", "sl", "a">>}
 Clss == {<<"a">>, <<"A", "b">>}
 One == <<KB(<<"a">>, IntV("py", <<"N1">>))>>
@@ -68,9 +73,12 @@ Ints == {IntV("py", <<"N0">>), IntV("py", <<"N1">>), IntV("py", <<"mi", "N1">>),
          IntV("uint64", <<"N18446744073709551615">>),
          IntV("sint64", <<"mi", "N9223372036854775808">>),
          IntV("sint64", <<"N9223372036854775807">>)}
+(* {plain, negative} x {no exponent, e+, e-} with a fraction; exponent    *)
+(* without fraction with both signs                                        *)
 RealLits == {<<"N1", "dot", "N5">>, <<"mi", "N1", "dot", "N5">>,
              <<"N1", "dot", "N5", "ex">>, <<"N1", "ex">>, <<"N1", "ex2">>,
              <<"mi", "N1", "dot", "N5", "ex2">>,
+             <<"mi", "N1", "dot", "N5", "ex">>, <<"N1", "dot", "N5", "ex2">>,
              <<"INF">>, <<"mi", "INF">>, <<"NAN">>}
 Reals == {RealV(w, s) : w \in {"py", "real32", "real64"}, s \in RealLits}
 Others == {Val("boolean", "", <<"T">>, <<>>), Val("boolean", "", <<"F">>, <<>>),
@@ -102,10 +110,11 @@ Inner3 == {Inst(FALSE, <<>>, hn, IF hn THEN <<"a">> ELSE <<>>, <<"b">>,
                 <<KB(<<"a">>, v)>>) :
              hn \in BOOLEAN,
              v \in {Str(<<"dq">>), Str(<<"bs">>), Str(<<"A">>),
-                    Str(<<"a", "lf">>), IntV("py", <<"N1">>)}}
-Inner2 == {Inst(hh, IF hh THEN <<"A">> ELSE <<>>, hh, IF hh THEN <<"a">> ELSE <<>>,
+                    Str(<<"a", "lf">>), IntV("py", <<"N1">>),
+                    RealV("py", <<"N1", "dot", "N5", "ex">>)}}
+Inner2 == {Inst(h # <<>>, h, h # <<>>, IF h # <<>> THEN <<"a">> ELSE <<>>,
                 <<"B">>, <<KB(<<"A">>, v)>>) :
-             hh \in BOOLEAN,
+             h \in {<<>>, <<"A">>, Ip6NoPort},
              v \in {Ref(q) : q \in Inner3} \cup {Str(<<"dq", "bs">>)}}
 U4 == {Inst(FALSE, <<>>, TRUE, <<"a">>, <<"a">>, kb) :
          kb \in {<<KB(<<"a">>, Ref(q))>> : q \in Inner2 \cup Inner3}
@@ -117,10 +126,12 @@ MutUniverse == IF MutAll THEN Universe ELSE U1 \cup U3 \cup U4
 
 (* ------------------------------ variants of a path --------------------- *)
 Flip(c) == CASE c = "a" -> "A" [] c = "A" -> "a" [] c = "b" -> "B"
-             [] c = "B" -> "b" [] OTHER -> c
+             [] c = "B" -> "b" [] c = "h" -> "H" [] c = "H" -> "h"
+             [] OTHER -> c
 FlipSeq(q) == [i \in DOMAIN q |-> Flip(q[i])]
 UpSeq(q) == [i \in DOMAIN q |-> IF q[i] = "a" THEN "A"
-                                ELSE IF q[i] = "b" THEN "B" ELSE q[i]]
+                                ELSE IF q[i] = "b" THEN "B"
+                                ELSE IF q[i] = "h" THEN "H" ELSE q[i]]
 
 (* G in {Flip, Up, Lower} applied to every name, recursively, and the      *)
 (* keybinding order reversed                                               *)
